@@ -88,12 +88,42 @@ type Want struct {
 	From       int  // mode-2 recording starts at the wait that consumes answer index From
 }
 
+// Decision is the environment's answer at one read event of a scripted call: how many of
+// the not-yet-delivered script bytes arrive in this read; for a cursor-position read, Mode
+// says where: "before" / "after" the report in the same read, or "own" (a read of their own
+// before the report).
+type Decision struct {
+	N    int
+	Mode string `json:",omitempty"`
+}
+
+// ScriptPlan drives one call from a byte script instead of an answer list: every read of
+// the library (key read at the gate, or the read inside the cursor-position query) is an
+// event, numbered as it occurs; Decisions overrides the default answer at given events
+// (default: the rest of the current logical key at a key read, nothing at a query read).
+type ScriptPlan struct {
+	Bytes     []byte
+	KeyLens   []int
+	Decisions map[int]Decision
+}
+
+// Event is one read event of a scripted call, as it occurred.
+type Event struct {
+	Kind      string // "key" | "cpr"
+	Remaining int    // script bytes not yet delivered when the event occurred
+	Default   int    // what the default plan delivers here
+	N         int    // what was delivered
+	Mode      string `json:",omitempty"`
+	Pos       int    // bytes delivered before the event
+}
+
 // Job is one execution: a fresh shell, one or more Readline calls, a plan of answers.
 type Job struct {
-	ID    int
-	Cfg   Config
-	Calls [][]Answer
-	Want  Want
+	ID     int
+	Cfg    Config
+	Calls  [][]Answer
+	Want   Want
+	Script *ScriptPlan `json:",omitempty"` // when set, the single call is driven by it
 }
 
 // Obs is what oracles read, all through the public API.
@@ -147,6 +177,7 @@ type Call struct {
 	Hist        map[string][]string `json:",omitempty"`
 	HistWrites  map[string][]string `json:",omitempty"`
 	ShellLine   string              // Shell.Line() right after the call
+	Events      []Event             `json:",omitempty"` // scripted calls: the read events as they occurred
 }
 
 // Trace is the result of one Job.
